@@ -113,3 +113,20 @@ Print Assumptions C17_redis_hll_equals_iff.
 Print Assumptions C17_redis_cuckoo_sound.
 Print Assumptions C17_redis_bloom_same_answers.
 Print Assumptions C17_redis_topk_sound.
+
+(* symmetry of the positive verdict for the in-memory structures (Bloom: C17_bloom_sym): on
+   well-formed states Equals(a, b) says true exactly when Equals(b, a) does *)
+From GX.Proofs Require EqualsSym.
+Theorem C17_cms_sym : forall a b, cms_wf a -> cms_wf b -> (cms_equals_o a b = Ok true <-> cms_equals_o b a = Ok true).
+Proof. exact EqualsSym.cms_equals_sym. Qed.
+Print Assumptions C17_cms_sym.
+Theorem C17_hll_sym : forall a b, hll_cwf a -> hll_cwf b -> (hll_equals a b = Ok true <-> hll_equals b a = Ok true).
+Proof. exact EqualsSym.hll_equals_sym. Qed.
+Print Assumptions C17_hll_sym.
+Theorem C17_cuckoo_sym : forall a b, cuckoo_cwf a -> cuckoo_cwf b -> (ck_equals a b = Ok true <-> ck_equals b a = Ok true).
+Proof. exact EqualsSym.ck_equals_sym. Qed.
+Print Assumptions C17_cuckoo_sym.
+Theorem C17_topk_sym : forall pa a pb b, cms_wf (t_sketch a) -> cms_wf (t_sketch b) ->
+  (topk_equals pa a pb b = Ok true <-> topk_equals pb b pa a = Ok true).
+Proof. exact EqualsSym.topk_equals_sym. Qed.
+Print Assumptions C17_topk_sym.
